@@ -467,16 +467,21 @@ func init() {
 		Explanation: "Decided (the memoisation clause and the binding clause): M1 Comp.genericFunc and Comp.GenericType consult Instances[maker.ikey] and call the instantiator only on a miss, using its result like a cached instance; M2 the instantiator stores the new instance under the same key on every normal path and returns the stored value (it is stored before the body is compiled, so recursive uses find it); " +
 			"M3 a deferred handler deletes Instances[key] when instantiation fails and the failure flag is cleared once, immediately before the final return; M4 maker.ikey is GenericKey(vals, types) of the maker's own arguments, is never reassigned, and element i of the key is the constant argument or xreflect.MakeKey of the type argument; " +
 			"M5 the instance is compiled by a fresh nested compiler (NewComp) after injectBinds declared parameter i as a constant of value vals[i] / alias of types[i] in it, and only that compiler compiles the declaration; A3 the closure that evaluates a function instance switches to the frame named by its depth arm (0, 1, 2, file, top, or upn steps) before calling it. " +
+			"M6 the maker of an instantiation receives the scope of the generic's declaration, never the scope of the call (the instance is memoised for everybody); L6g equality of two ReflectType() results is never the whole test of type identity in the generic machinery. " +
 			"Not decided: equivalence of an instance with the textually specialised declaration; inference of type arguments; choice among specialisations; identity of xreflect.MakeKey for identical types (C29).",
 		Assumptions: []string{"xreflect.MakeKey returns equal keys exactly for identical types (canonical interpreter types, C29)"},
 		Rules: []func(*Ctx){func(c *Ctx) {
 			ruleGenericMemo(c, "M-generic-memo")
+			ruleReflectTypeEqualityNeedsIdentity(c, "L6g-reflect-equality-needs-identity", []string{"generic_maker.go", "generic_func.go", "generic_type.go", "generic_infer.go"})
+			ruleMakerScope(c, "M6-maker-scope")
 			ruleInjectBinds(c, "M5-inject-binds")
 			ruleDepthOfEnvCalls(c, "fast", []string{"generic_func.go"}, "A3-depth")
 			c.Floor("M-generic-memo", 20)
 		}},
 		Technique: "AST/type-resolved custom analysis: lookup-dominates-miss, same-key store, deferred roll-back (transactional shape), call order and receiver identity in the instantiators",
 		Mutants: []Mutant{
+			{Name: "inferred-instance-compiled-in-call-scope", File: "fast/generic_infer.go", Old: "comp: upc, sym: fun.Sym, ifun: fun.Sym.Value,", New: "comp: c, sym: fun.Sym, ifun: fun.Sym.Value,"},
+			{Name: "repeated-pattern-variable-matched-by-reflect-type", File: "fast/generic_maker.go", Old: "ok = typ.IdenticalTo(types[i])", New: "ok = typ.ReflectType() == types[i].ReflectType()"},
 			{Name: "function-instance-never-cached", File: "fast/generic_func.go", Old: "\tfun.Instances[key] = instance\n", New: "", Canary: true},
 			{Name: "type-instance-cached-under-name-only", File: "fast/generic_type.go", Old: "\t\tt = c.Type(special.decl.Decl)\n\t\ttyp.Instances[key] = t", New: "\t\tt = c.Type(special.decl.Decl)\n\t\ttyp.Instances[maker.sym.Name] = t"},
 			{Name: "always-reinstantiate", File: "fast/generic_type.go", Old: "\tinstance, _ := typ.Instances[key]\n\tif instance != nil {", New: "\tinstance, _ := typ.Instances[key]\n\tif instance != nil && debug {", Canary: true},
